@@ -17,7 +17,7 @@ package sam
 //@ spec func opR(t CigarOpType) int = ite(t == 0 || t == 2 || t == 3 || t == 7 || t == 8, 1, ite(t == 9, 0 - 1, 0))
 //@ spec func opType(co CigarOp) CigarOpType = CigarOpType(co & 0xf)
 //@ spec func opLen(co CigarOp) int = int(co >> 4)
-//@ spec func wfCigar(c Cigar) bool = len(c) <= 65535 && forall i in 0..len(c) :: opType(c[i]) <= 10
+//@ spec func wfCigar(c Cigar) bool = len(c) <= 1099511627776 && forall i in 0..len(c) :: opType(c[i]) <= 10
 
 // Consumes is also an accessor applied to decoded records (C11): BAM stores the
 // operation in four bits, so codes 11..15 reach it and must not panic.
@@ -109,6 +109,7 @@ package sam
 //@ spec func okS(c Cigar, i int) bool = opType(c[i]) == 4 ==> (i == 0 || i == len(c) - 1 || (i == 1 && opType(c[0]) == 5) || (i == len(c) - 2 && opType(c[len(c)-1]) == 5))
 //@ func Cigar.IsValid
 //@   mode int
+//@   anymode
 //@   props C16
 //@   terminates
 //@   requires wfCigar(c) && 0 - 1099511627776 <= length && length <= 1099511627776
@@ -160,14 +161,19 @@ package sam
 //@ table cigarOpTypeLookup
 //@ func ParseCigar
 //@   mode int
+//@   anymode
 //@   props C11
 //@   decoder
 //@   loop 0 invariant @outer 0 <= i && i <= len(b) && (c == nil || fresh(c)) && op <= 10
+//@   loop 0 invariant @ops forall k in 0..len(c) :: opType(c[k]) <= 10
 //@   loop 0 decreases len(b) - i
 //@   loop 1 invariant @inner i <= j && j <= len(b) && 0 <= i && i < len(b) && (c == nil || fresh(c)) && op <= 10 && (forall k in i..j :: 48 <= b[k] && b[k] <= 57)
+//@   loop 1 invariant @ops forall k in 0..len(c) :: opType(c[k]) <= 10
 //@   loop 1 decreases len(b) - j
 //@   loop 2 invariant @split 0 <= n && 0 <= i && i < len(b) && (c == nil || fresh(c)) && op < 10
+//@   loop 2 invariant @ops forall k in 0..len(c) :: opType(c[k]) <= 10
 //@   loop 2 decreases n
+//@   ensures[C11] @ops result1 == nil ==> forall k in 0..len(result0) :: opType(result0[k]) <= 10
 
 // Header identity invariant (C07): the programs reachable from a header have
 // ids equal to their index, belong to the header, have unique UIDs, and the
@@ -360,14 +366,13 @@ package sam
 // reaches the record parser instead of being dropped.
 //@ trusted func ext:bufio.Reader.ReadBytes
 //@   ensures result1 == nil ==> (len(result0) >= 1 && result0[len(result0)-1] == delim)
-//@ trusted func Record.UnmarshalSAM
-//@   modifies all(r)
 
 //@ func Reader.Read
 //@   mode int
 //@   props C06, C11
 //@   decoder
 //@   requires r != nil && r.r != nil
+//@   requires r.h != nil ==> forall k in 0..len(r.h.refs) :: r.h.refs[k] != nil
 //@   requires r.seenRefs != nil ==> (r.h != nil && len(r.h.refs) <= 999990 && refsA(r.h) && refsB(r.h) && refsC(r.h))
 //@   modifies mapof(r.seenRefs), r.h.refs, mapof(r.h.seenRefs), arrays(*Reference), backing(r.h.refs), objects(Reference)
 //@   ghost got int
@@ -398,6 +403,7 @@ package sam
 
 //@ func ParseAux
 //@   mode int
+//@   anymode
 //@   props C11
 //@   decoder
 
@@ -552,3 +558,32 @@ package sam
 //@   decoder
 //@   requires 0 <= ns.Length && len(ns.Seq) == div(ns.Length + 1, 2)
 //@   ensures[C11] @len len(result) == ns.Length
+
+// Record.UnmarshalSAM (C11, C06): any line gives a record or an error; the
+// record it returns has packed sequence bytes and qualities of the announced
+// length. The number parsers, NewAux and the reference lookup are
+// dependencies or under their own contracts.
+//@ func referenceForName
+//@   mode int
+//@   anymode
+//@   props C11
+//@   decoder
+//@   requires h != nil ==> forall k in 0..len(h.refs) :: h.refs[k] != nil
+//@ func NewSeq
+//@   inline
+//@ func contract
+//@   mode int
+//@   anymode
+//@   props C11
+//@   decoder
+//@   ensures[C11] @len len(result) == div(len(s) + 1, 2)
+//@ table n16Table
+//@ func Record.UnmarshalSAM
+//@   mode bv
+//@   anymode
+//@   props C11, C06
+//@   decoder
+//@   requires r != nil
+//@   requires h != nil ==> forall k in 0..len(h.refs) :: h.refs[k] != nil
+//@   modifies all(r)
+//@   ensures[C11] @seq result == nil ==> (r.Seq.Length >= 0 && len(r.Seq.Seq) == div(r.Seq.Length + 1, 2) && (len(r.Qual) == 0 || len(r.Qual) == r.Seq.Length))
